@@ -157,6 +157,24 @@ pub broadcast proof fn axiom_string_index_from_req(s: &String, i: core::ops::Ran
 pub broadcast proof fn axiom_string_index_from(s: &String, i: core::ops::RangeFrom<usize>, o: &str)
     ensures (is_ascii_chars(s@) && #[trigger] string_index_rel::<core::ops::RangeFrom<usize>>(s, i, o)) ==> o@ == s@.subrange(i.start as int, s@.len() as int),
 {}
+/// T14': slicing a `&str` at byte n does not panic when n is 0, or n is inside the string and the byte before it is ASCII (then n is
+/// a char boundary; a sufficient condition, the same one T12 uses for `get`); the result holds the bytes from / up to n
+#[verifier::external_body]
+pub broadcast proof fn axiom_str_index_from_req(s: &str, i: core::ops::RangeFrom<usize>)
+    ensures (i.start == 0 || (i.start <= utf8(s@).len() && utf8(s@)[i.start - 1] < 128)) ==> #[trigger] vstd::std_specs::core::IndexSpec::index_req(s, &i),
+{}
+#[verifier::external_body]
+pub broadcast proof fn axiom_str_index_from(s: &str, i: core::ops::RangeFrom<usize>, o: &str)
+    ensures #[trigger] str_index_rel::<core::ops::RangeFrom<usize>>(s, i, o) ==> i.start <= utf8(s@).len() && utf8(o@) == utf8(s@).subrange(i.start as int, utf8(s@).len() as int),
+{}
+#[verifier::external_body]
+pub broadcast proof fn axiom_str_index_to_req(s: &str, i: core::ops::RangeTo<usize>)
+    ensures (i.end == 0 || (i.end <= utf8(s@).len() && utf8(s@)[i.end - 1] < 128)) ==> #[trigger] vstd::std_specs::core::IndexSpec::index_req(s, &i),
+{}
+#[verifier::external_body]
+pub broadcast proof fn axiom_str_index_to(s: &str, i: core::ops::RangeTo<usize>, o: &str)
+    ensures #[trigger] str_index_rel::<core::ops::RangeTo<usize>>(s, i, o) ==> i.end <= utf8(s@).len() && utf8(o@) == utf8(s@).subrange(0, i.end as int),
+{}
 /// T2: ordering of byte slices is lexicographic
 #[verifier::external_body]
 pub broadcast proof fn axiom_slice_ord(a: &[u8], b: &[u8])
@@ -265,7 +283,7 @@ pub broadcast group group_trusted {
     axiom_vecu8_ord, axiom_vecu8_ord2, axiom_vecu8_borrow,
     axiom_contains_borrowed, axiom_maps_borrowed, axiom_removed_borrowed, axiom_vecu8_cmp,
     axiom_vec_ref, axiom_str_ref, axiom_vec_of, axiom_vec_from_str, axiom_vec_from_slice, axiom_vec_from_str_obeys, axiom_vec_from_slice_obeys, axiom_array_ref,
-    axiom_ip4_len, axiom_ip6_len, axiom_is_ws_ascii, axiom_string_str, axiom_u8_from_bool, axiom_u8_from_bool_obeys,
+    axiom_ip4_len, axiom_ip6_len, axiom_is_ws_ascii, axiom_string_str, axiom_u8_from_bool, axiom_u8_from_bool_obeys, axiom_str_index_from_req, axiom_str_index_from, axiom_str_index_to_req, axiom_str_index_to,
 }
 
 /// extensionality axioms have two independent triggers (quadratic instantiation): they are kept out of the default group and
